@@ -258,3 +258,10 @@ Proof.
   rewrite (project_location_configured c src location Hp).
   rewrite (get_source_configured_luau_mode c rc _ location alias Hc Hr Ha). reflexivity.
 Qed.
+
+(** a nearest [.luaurc] without aliases hides every outer [.luaurc]: no [.luaurc] alias at all *)
+Lemma rc_lookup_nearest_without_aliases c rcs src d name :
+  first_rc rcs (ancestors src) = Some (d, []) -> rc_lookup (rc_aliases c rcs src) name = None.
+Proof.
+  intros Hf. unfold rc_aliases. destruct (c_use_rc c); [|reflexivity]. rewrite Hf. reflexivity.
+Qed.
